@@ -934,7 +934,9 @@ def run(ctx):
     # --- histories: hand-written -------------------------------------------------------------
     for text, steps in HISTORY_CORPUS:
         hdoc = conv_doc(real.parse(text))
-        got = run_history(real, text, steps)
+        kept = []
+        got = run_history(real, text, steps, keep=kept)
+        register_later(ctx, real, text, steps, got, kept, [expected_flags(hdoc, st[2], st[0], st[1]) for st in steps])
         ctx.count(len(steps))
         ctx.stat("history-corpus")
         for k, (st, g) in enumerate(zip(steps, got)):
@@ -1028,9 +1030,10 @@ def entry_point_probe(ctx, real, doc, vs):
             return
 
 
-def run_history(real, text, steps):
+def run_history(real, text, steps, keep=None):
     """One parsed Document and one rule instance per (limit, filter), reused over the whole sequence.
-       steps: [[limit, filter, variables, via_validate_ast]]. Returns the results, one per step."""
+       steps: [[limit, filter, variables, via_validate_ast]]. Returns the results, one per step.
+       keep: a list that receives (rule instance, document) per step (for ctx.later)."""
     document = real.parse(text)
     instances = {}
     out = []
@@ -1039,7 +1042,21 @@ def run_history(real, text, steps):
         if key not in instances:
             instances[key] = real.Rule(limit, operation_name=filt)
         out.append(real.flags_with(instances[key], document, dict(vs), via_validate=via))
+        if keep is not None:
+            keep.append((instances[key], document))
     return out
+
+
+def register_later(ctx, real, text, steps, got, kept, wanted):
+    """ctx.later: the SAME rule instance on the SAME parsed Document is called again at the very end of the run
+       (after every other document, history and entry-point call of this process)."""
+    for st, g, (rule, document), want in zip(steps, got, kept, wanted):
+        if g != want:
+            continue
+        limit, filt, vs, via = st
+        ctx.later("rule-call:%s" % ("validate_ast" if via else "direct"),
+                  (lambda rule=rule, document=document, vs=dict(vs), via=via: real.flags_with(rule, document, dict(vs), via_validate=via)),
+                  g, {"text": text, "limit": limit, "filter": filt, "variables": vs, "via_validate_ast": via})
 
 
 def fresh_results(real, text, steps):
@@ -1058,7 +1075,9 @@ def history_check(ctx, real, doc, assigns, nsteps):
     for _ in range(nsteps):
         steps.append([ctx.rng.choice(limits), ctx.rng.choice(filters) if ctx.rng.random() < 0.4 else None,
                       ctx.rng.choice(assigns), ctx.rng.random() < 0.25])
-    got = run_history(real, text, steps)
+    kept = []
+    got = run_history(real, text, steps, keep=kept)
+    register_later(ctx, real, text, steps, got, kept, [expected_flags(doc, st[2], st[0], st[1]) for st in steps])
     ctx.count(len(steps))
     ctx.stat("history-steps", len(steps))
     if len(depths) > 1:
